@@ -3,7 +3,7 @@ import json
 from pcv import core, capio, textgen
 
 P = "PcVerif.Props.C03."
-THEOREMS = [P + t for t in ["unescape_escape", "xmlUnescape_escape", "escape_no_angle", "vtt_text_roundtrip", "vtt_text_cannot_end_cue", "vtt_escapes_pinned", "dfxp_lines_roundtrip", "sami_legacy_same_content"]]
+THEOREMS = [P + t for t in ["unescape_escape", "xmlUnescape_escape", "escape_no_angle", "vtt_text_roundtrip", "vtt_text_cannot_end_cue", "vtt_escapes_pinned", "dfxp_lines_roundtrip", "sami_legacy_same_content", "srt_cue_has_no_blank_line"]]
 
 
 def make(tier, seed):
